@@ -121,7 +121,10 @@ def run_case(ctx, case, confirm=False):
         fpa = os.path.join(base, "hostA"); fpb = os.path.join(base, "hostB")
         with open(fpa, "w") as f: f.write("libc 2.31\n")
         with open(fpb, "w") as f: f.write("libc 2.31\n" if case["samehost"] else "libc 2.99\n")
-        SA = prep(case["model"], arch, case["fp"], case["nonreloc"])
+        nonreloc = list(case["nonreloc"])
+        if case.get("both") and case["fp"]:
+            nonreloc = [case["fp"][0]] + nonreloc          # a package that is fingerprinted and not relocatable
+        SA = prep(case["model"], arch, case["fp"], nonreloc)
         taint = set()
         for m in [SA] + [x for x, _ in projgen.apply_history(SA, case["edits"])][-1:]:
             taint |= tool_reachable_recipes(m, os.path.join(base, "probe")) or set()
@@ -215,6 +218,7 @@ def case_st(quick):
         "nonreloc": st.lists(I, max_size=2),
         "noise": st.one_of(st.none(), st.lists(projgen.edit_st, min_size=1, max_size=2)),
         "noise_host": st.booleans(),
+        "both": st.booleans(),
     })
 
 def check(ctx, case):
